@@ -243,7 +243,12 @@ pub trait Merge: StorageEventLogs {
 
         match diff.identity {
             Some(MaybeDiff::Diff(diff)) => {
-                self.merge_identity(diff, outcome).await?;
+                let checked_patch =
+                    self.merge_identity(diff, outcome).await?;
+                // Patch was not applied so report the conflict
+                if let CheckedPatch::Conflict { .. } = checked_patch {
+                    compare.identity = Some(Comparison::Unknown);
+                }
             }
             Some(MaybeDiff::Compare(Some(state))) => {
                 compare.identity = Some(self.compare_identity(&state).await?);
@@ -256,9 +261,13 @@ pub trait Merge: StorageEventLogs {
 
         match diff.account {
             Some(MaybeDiff::Diff(diff)) => {
-                let (_, deletions) =
+                let (checked_patch, deletions) =
                     self.merge_account(diff, outcome).await?;
                 deleted_folders = deletions;
+                // Patch was not applied so report the conflict
+                if let CheckedPatch::Conflict { .. } = checked_patch {
+                    compare.account = Some(Comparison::Unknown);
+                }
             }
             Some(MaybeDiff::Compare(state)) => {
                 if let Some(state) = state {
@@ -271,7 +280,11 @@ pub trait Merge: StorageEventLogs {
 
         match diff.device {
             Some(MaybeDiff::Diff(diff)) => {
-                self.merge_device(diff, outcome).await?;
+                let checked_patch = self.merge_device(diff, outcome).await?;
+                // Patch was not applied so report the conflict
+                if let CheckedPatch::Conflict { .. } = checked_patch {
+                    compare.device = Some(Comparison::Unknown);
+                }
             }
             Some(MaybeDiff::Compare(state)) => {
                 if let Some(state) = state {
@@ -284,7 +297,11 @@ pub trait Merge: StorageEventLogs {
         #[cfg(feature = "files")]
         match diff.files {
             Some(MaybeDiff::Diff(diff)) => {
-                self.merge_files(diff, outcome).await?;
+                let checked_patch = self.merge_files(diff, outcome).await?;
+                // Patch was not applied so report the conflict
+                if let CheckedPatch::Conflict { .. } = checked_patch {
+                    compare.files = Some(Comparison::Unknown);
+                }
             }
             Some(MaybeDiff::Compare(state)) => {
                 if let Some(state) = state {
@@ -305,7 +322,12 @@ pub trait Merge: StorageEventLogs {
             }
             match maybe_diff {
                 MaybeDiff::Diff(diff) => {
-                    self.merge_folder(&id, diff, outcome).await?;
+                    let (checked_patch, _) =
+                        self.merge_folder(&id, diff, outcome).await?;
+                    // Patch was not applied so report the conflict
+                    if let CheckedPatch::Conflict { .. } = checked_patch {
+                        compare.folders.insert(id, Comparison::Unknown);
+                    }
                 }
                 MaybeDiff::Compare(state) => {
                     if let Some(state) = state {
